@@ -14,7 +14,7 @@ import harness
 import files_engine as fe
 import cli_engine as ce
 
-GEN_UNITS = ['Cli', 'Encoders', 'Criteria', 'Pseudo', 'PassTable', 'ParseTable']   # the last five: the whole model of asm.assemble (C14_whole_*)
+GEN_UNITS = ['Cli', 'Encoders', 'Criteria', 'Pseudo', 'PassTable', 'ParseTable', 'Effects']   # the last five: the whole model of asm.assemble (C14_whole_*)
 EXES = []
 ASSUMPTIONS = [
     'no symbolic links, no directory named like a file, directories on the search path exist (the model checks ".." '
